@@ -22,7 +22,7 @@ Theorem C18_consistent :
 Proof. exact six_consistent. Qed.
 
 (* monotone in the literal *)
-Theorem C18_mono_int : forall l v w, v < w ->
+Theorem C18_mono_int : forall l v w, min_int64 <= v <= max_int64 -> min_int64 <= w <= max_int64 -> v < w ->
   (int_cmp l (RInt v) = inl (Some Lt) -> int_cmp l (RInt w) = inl (Some Lt)) /\
   (int_cmp l (RInt w) = inl (Some Gt) -> int_cmp l (RInt v) = inl (Some Gt)).
 Proof. exact mono_int. Qed.
